@@ -15,6 +15,7 @@ returns an error gave the records `out` (each with the id of the input it came f
 -/
 import Hts.Lemmas.MergerTop
 import Hts.Lemmas.MergerUnique
+import Hts.Lemmas.MergerHeaderBridge
 namespace Hts.Props.C18
 open Hts.Model.Merger
 
@@ -264,13 +265,8 @@ theorem merge_sorted_returns_all_readable (hm : newMerger custom (some linkFn) i
 /-! ### references: every returned record's Ref and MateRef belong to the merged header, under the name
 they had in the source -/
 
-/-- the laws assumed of the link table (sam.MergeHeaders, property C07): reference `x` of source `i` is
-linked to a reference of the merged header with the same name.  For a single source (`links = none`)
-the merged header is the source header. -/
-def LinksOK (srcRefs : List (List Name)) (merged : List Name) (links : Option LinkFn) : Prop :=
-  ∀ (i : Nat) (names : List Name), srcRefs[i]? = some names → ∀ x : Nat, x < names.length →
-    (match links with | none => x | some l => l i x) < merged.length ∧
-    merged[(match links with | none => x | some l => l i x)]? = names[x]?
+-- `LinksOK` (the laws assumed of the link table) is defined in Hts.Lemmas.MergerTop; `links_law_from_C07` below
+-- derives it from the theorem C07 proves about sam.MergeHeaders.
 
 /-- what bam.Reader.Read guarantees: Ref and MateRef of a record are references of its own header -/
 def RefsInRange (srcRefs : List (List Name)) (inputs : List Input) : Prop :=
@@ -320,6 +316,21 @@ theorem merge_refs_owned (srcRefs : List (List Name)) (merged : List Name)
     · cases hx : r.mate with
       | none => rfl
       | some x => exact ⟨l i x, rfl, hlk x (hrmate x hx)⟩
+
+/-- the law `LinksOK` is not a free assumption: for two or more sources it follows from what property C07
+proves about its model of sam.MergeHeaders (`Hts.Model.Header.mergeHeaders_links`, C07's `LinksOk` over a heap
+of reference objects), with `linkFnOf` = the ID of the reference object a link points to and the reference
+names read off the same world; the sources' name lists are unchanged by the merge -/
+theorem links_law_from_C07 {w w' : Hts.Model.Header.World} (hw : Hts.Model.Header.WInv w) {srcs : List Nat}
+    {ls : List (List Nat)} (hs : ∀ s ∈ srcs, s < w.hdrs.length)
+    (hmh : Hts.Model.Header.mergeHeaders w srcs = (w', .ok, ls)) :
+    LinksOK (srcs.map (refNames w'.refs)) (refNames w'.refs w.hdrs.length) (some (linkFnOf w'.refs ls)) ∧
+    ∀ s ∈ srcs, refNames w'.refs s = refNames w.refs s := by
+  have hw' : Hts.Model.Header.WInv w' := by
+    have := Hts.Model.Header.winv_mergeHeaders hw srcs
+    rw [hmh] at this; exact this
+  obtain ⟨hl, hsame⟩ := Hts.Model.Header.mergeHeaders_links hw hs hmh
+  exact ⟨linksOK_of_header_LinksOk hw'.refs hl, fun s hs' => by unfold refNames; rw [hsame s hs']⟩
 
 /-! ### the orders of the declared sort orders -/
 
